@@ -157,11 +157,21 @@ class Closure:
         self.caps = caps
         self.this = this
 
+    def __deepcopy__(self, memo):
+        # copying a closure copies its by-value captures, never the function (or the program DB)
+        caps = {}
+        for d, c in self.caps.items():
+            caps[d] = c
+        return Closure(self.fn, caps, self.this)
+
 
 class FuncRef:
     def __init__(self, fn=None, bn=None):
         self.fn = fn
         self.bn = bn
+
+    def __deepcopy__(self, memo):
+        return self
 
 
 class Interval:
@@ -247,6 +257,9 @@ def interval_cmp(op, a, b):
 
 class Sym:
     """opaque symbol; the World's `sym_binop` / `sym_cmp` define what may be done with it"""
+
+    def __deepcopy__(self, memo):
+        return self
 
     def __init__(self, kind, tag, data=None):
         self.kind = kind
@@ -656,10 +669,10 @@ class Interp:
 
     def arith(self, op, a, b):
         a, b = self.rv(a), self.rv(b)
-        if isinstance(a, Sym) or isinstance(b, Sym):
-            return self.world.sym_binop(op, a, b)
         if isinstance(a, Interval) or isinstance(b, Interval):
             return interval_binop(op, a, b)
+        if not isinstance(a, (int, float, bool)) or not isinstance(b, (int, float, bool)):
+            return self.world.sym_binop(op, a, b)
         if isinstance(a, bool):
             a = int(a)
         if isinstance(b, bool):
@@ -689,7 +702,11 @@ class Interp:
 
     def compare(self, op, a, b, node=None):
         a, b = self.rv(a), self.rv(b)
-        if isinstance(a, Sym) or isinstance(b, Sym):
+        if (a is not None and b is not None and not isinstance(a, (Closure, FuncRef)) and
+                not isinstance(b, (Closure, FuncRef)) and not isinstance(a, Interval) and
+                not isinstance(b, Interval) and
+                (not isinstance(a, (int, float, bool, str, tuple)) or
+                 not isinstance(b, (int, float, bool, str, tuple)))):
             r = self.world.sym_cmp(op, a, b)
             if r is None:
                 return self.decide(node)
@@ -867,6 +884,10 @@ class Interp:
 
         if bn in ("std::move", "std::forward", "std::as_const", "std::addressof"):
             return A(0)
+        if name == "operator=" and e.get("lib") and e.get("fid") is None and e.get("obj") is not None:
+            # defaulted copy / move assignment of a library record: member-wise copy
+            r = self.eval(e["obj"], fr)
+            return self.assign(fr, e, r, A(0))
         if bn in ("std::max", "std::min"):
             a, b = A(0), A(1)
             if len(args_n) == 3:
@@ -891,7 +912,7 @@ class Interp:
             if isinstance(x, (int, float)):
                 return abs(x)
             return self.world.sym_unop("abs", x)
-        if bn == "std::nextafter":
+        if bn in ("std::nextafter", "nextafter"):
             x = V(0)
             if isinstance(x, float):
                 return math.nextafter(x, V(1))
@@ -983,6 +1004,54 @@ class Interp:
                 while len(c) < n:
                     c.append(copy.deepcopy(fill))
                 return None
+        if cls in ("std::queue", "std::priority_queue", "std::stack"):
+            obj = self.eval(e["obj"], fr)
+            c = self.rv(obj)
+            if isinstance(c, Opaque):
+                c = PyVec()
+                if isinstance(obj, Ref):
+                    obj.set(c)
+            if not isinstance(c, list):
+                raise AnalysisBroken("interp: %s on unmodelled container %r" % (bn, c))
+            if name in ("push", "emplace"):
+                if len(args_n) != 1:
+                    raise AnalysisBroken("interp: %s with %d args" % (bn, len(args_n)))
+                c.append(copy.deepcopy(V(0)))
+                return None
+            if name == "empty":
+                return len(c) == 0
+            if name == "size":
+                return len(c)
+            if not c:
+                raise AnalysisBroken("interp: %s on an empty container at %s" % (bn, fr.fn.loc(e)))
+            if cls == "std::queue":
+                if name == "front":
+                    return ElemRef(c, 0)
+                if name == "back":
+                    return ElemRef(c, len(c) - 1)
+                if name == "pop":
+                    c.pop(0)
+                    return None
+            if cls == "std::stack":
+                if name == "top":
+                    return ElemRef(c, len(c) - 1)
+                if name == "pop":
+                    c.pop()
+                    return None
+            if cls == "std::priority_queue":
+                qt = fr.fn.type(strip(e["obj"]).get("t"))
+                opname = "operator>" if "std::greater<" in qt else "operator<" if "std::less<" in qt else None
+                if opname is None:
+                    raise AnalysisBroken("interp: priority_queue with a custom comparator")
+                best = 0
+                for i in range(1, len(c)):
+                    if self.obj_compare(fr, opname, c[best], c[i]):   # comp(best, other): other ranks higher
+                        best = i
+                if name == "top":
+                    return ElemRef(c, best)
+                if name == "pop":
+                    c.pop(best)
+                    return None
         if cls in ("std::map", "std::unordered_map"):
             obj = self.eval(e["obj"], fr)
             c = self.rv(obj)
@@ -1017,6 +1086,16 @@ class Interp:
                 return self.compare(op, ops[0], ops[1], e)
         raise AnalysisBroken("interp: library call %s is not modelled (at %s: %s)"
                              % (bn, fr.fn.loc(e), pp(e)[:120]))
+
+    def obj_compare(self, fr, opname, a, b):
+        """a <op> b for library records through their own comparison operator"""
+        if isinstance(a, Obj):
+            cands = [f for f in fr.fn.unit.fns.values() if f.cls == a.cls and f.name == opname
+                     and len(f.params) == 1]
+            if not cands:
+                raise AnalysisBroken("interp: %s of %s not found" % (opname, a.cls))
+            return self.truth(self.call_fn(cands[0], a, [b]))
+        return self.compare(opname[len("operator"):], a, b)
 
     # ---------------------------------------------------------------- statements
     def exec(self, s, fr):
